@@ -418,6 +418,8 @@ def main(run):
         "selection_modes": modes, "subcommands": cmds, "features": feats,
         "exit_nonzero_cases": sum(1 for c in cases if c["obs"]["rc"] != 0),
         "cases_outside_the_guards_not_compared": len(outside),
+        "outside_input_class_of_the_generator_theorems": sum(1 for i, v in mism_all if v == 91),
+        "outside_name_guards_of_C01_theorems_and_not_compiling": sum(1 for i, v in mism_all if v == 92),
         "findings_measured": outcome,
         "samples": [{"package": c["pkg"].name, "command": "shoot " + " ".join(c["obs"]["args"]),
                      "written": c["obs"]["written"], "go_build_ok": c["build_ok"], "gofmt_clean": c["gofmt_ok"],
